@@ -154,6 +154,15 @@ def classify(pats, lead, w):
                 continue     # ".ld" / "#ld" are not identifiers: only the directive classes are judged on them
             if rx.fullmatch(line, start, e):
                 got.add(cls)
+            elif cls in ('instruction', 'macro', 'register'):
+                # a match that cuts the identifier between two word characters classifies a PART of an identifier outside the vocabulary
+                wordch = lambda i: 0 <= i < len(line) and (line[i].isalnum() or line[i] == '_')
+                for m in rx.finditer(line):
+                    if m.end() <= s or m.start() >= e or m.end() == m.start():
+                        continue
+                    if (wordch(m.start() - 1) and wordch(m.start())) or (wordch(m.end() - 1) and wordch(m.end())):
+                        got.add(f'{cls} (part of the identifier: "{m.group(0)}")')
+                        break
     return got
 
 
